@@ -36,6 +36,7 @@ def cfg_for(gated: set) -> pg.GenCfg:
     cfg.twins = True
     cfg.private_name_clashes = True
     cfg.private_bases = True
+    cfg.exception_namesakes = True
     cfg.reexport_forms = tuple(f for f in forms if f"reexport:{f}" not in gated)
     return cfg
 
